@@ -37,9 +37,22 @@ func TestVerifC09_fourq(t *testing.T) {
 	defer r.Finish()
 	r.Rule("32-byte strings: [a]G for a in {0,1,2,3,N-1,(N+1)/2,5 SHAKE values} (reference and library), all 256 single-bit flips of 4 (quick) / 11 (thorough) of them, " +
 		"a cyclic part of the 392-torsion alone and added to [s0]G, raw curve points with tiny y, x=0 with the sign bit, y0 or y1 = p (the only out-of-range value) " +
-		"on valid bases and as aliases of points with a zero half, bit 127 set, y without x; distinct = distinct input bytes")
+		"on valid bases and as aliases of points with a zero half, bit 127 set, y without x; every curve point with a coordinate in {0,+-1,+-j,+-j*i (j<64), j+k*i (|j|,|k|<=2)} and all 392 small-order points, " +
+		"built by the reference and marshalled by the library (must decode again); every case also decoded into an object that already holds the nearest valid value, and before it; distinct = distinct input bytes")
 	c := ecurve.FourQ()
-	cases := c09ref.FourQCases(c09ref.EdOptions{FlipBases: r.Pick(4, 11)})
+	cases := c09ref.FourQCases(c09ref.EdOptions{FlipBases: r.Pick(4, 11), Special: 64})
+	// constructed special points (a coordinate 0, +-1, +-i, small, purely real or purely imaginary; all 392
+	// small-order points), marshalled by the library from the reference's coordinates
+	for _, sp := range c09ref.EdSpecial(c, 64) {
+		var P fourq.Point
+		copy(P.X[0][:], fpx.ToLE(sp.P.X.A, 16))
+		copy(P.X[1][:], fpx.ToLE(sp.P.X.B, 16))
+		copy(P.Y[0][:], fpx.ToLE(sp.P.Y.A, 16))
+		copy(P.Y[1][:], fpx.ToLE(sp.P.Y.B, 16))
+		var enc [32]byte
+		P.Marshal(&enc)
+		cases = append(cases, c09ref.Case{Name: "speciallib/" + sp.Name, Class: "special-lib", Data: c09ref.Clone(enc[:])})
+	}
 	for _, s := range c09ref.Scalars(c.N) {
 		var k, enc [32]byte
 		copy(k[:], fpx.ToLE(s.V, 32))
@@ -55,29 +68,47 @@ func TestVerifC09_fourq(t *testing.T) {
 		r.Eval(1)
 	}
 	dec := make([]verifmc.DecCase, len(cases))
+	bases := c09ref.Bases(cases)
 	for i, cs := range cases {
-		dec[i] = verifmc.DecCase{Name: cs.Name, Class: cs.Class, Data: cs.Data}
+		dec[i] = verifmc.DecCase{Name: cs.Name, Class: cs.Class, Data: cs.Data, Base: bases[i]}
+	}
+	observe := func(P *fourq.Point) verifmc.DecResult {
+		var out [32]byte
+		res := verifmc.DecResult{Accepted: true, Point: c09Neutral(P)}
+		if !P.IsOnCurve() {
+			res.Note = "accepted-value-fails-IsOnCurve"
+		}
+		P.Marshal(&out)
+		res.Reenc = out[:]
+		return res
 	}
 	r.CheckDecoder(verifmc.DecSpec{Entry: "fourq.Point.Unmarshal", Cases: dec, RefAll: true,
+		Seq: func(first, second []byte) verifmc.DecResult {
+			var b1, b2 [32]byte
+			copy(b1[:], first)
+			copy(b2[:], second)
+			var P fourq.Point
+			P.Unmarshal(&b1)
+			if !P.Unmarshal(&b2) {
+				return verifmc.DecResult{}
+			}
+			return observe(&P)
+		},
 		Ref: func(in []byte) verifmc.DecOracle {
 			v := c09ref.FourQVerdict(in)
 			return verifmc.DecOracle{Member: v.Member, Reason: v.Reason, Point: v.Point}
 		},
 		Lib: func(in []byte) verifmc.DecResult {
-			var buf, out [32]byte
+			var buf [32]byte
 			copy(buf[:], in)
 			var P fourq.Point
 			if !P.Unmarshal(&buf) {
 				return verifmc.DecResult{}
 			}
-			res := verifmc.DecResult{Accepted: true, Point: c09Neutral(&P)}
-			if !P.IsOnCurve() {
-				res.Note = "accepted-value-fails-IsOnCurve"
-			}
-			P.Marshal(&out)
-			res.Reenc = out[:]
-			return res
+			return observe(&P)
 		}})
+	r.RequireCounter("in:special-lib", 400)
+	r.RequireCounter("reused_receiver_cases", 1000)
 	r.RequireCounter("in:flip", 4*250)
 	r.RequireCounter("in:torsion", 20)
 	r.RequireCounter("in:alias", 4)
